@@ -13,6 +13,11 @@
 (*                    carried as numerators g E_ij adj(g), resp. the same on *)
 (*                    the traceless basis, over the denominator det g; the   *)
 (*                    numerators are multiplicative, N(g) N(s) = N(g s)      *)
+(*     "m2zi"         invertible non-unimodular Gaussian-integer 2x2 matrices *)
+(* Sym^(n-1), the actions on quadratic forms and on Hermitian matrices,     *)
+(* realification and block inclusion are integral and multiplicative on ALL  *)
+(* matrices; outside the named groups the forms are not preserved but scaled *)
+(* (discriminant by det^2, -det of a Hermitian matrix by |det g|^2).         *)
 (* Every map is defined by its MEANING, not by the library's formula:       *)
 (*   irrep n   Sym^(n-1): the action on binary forms of degree n-1 obtained *)
 (*             by substituting e1 -> a e1 + c e2, e2 -> b e1 + d e2 and     *)
@@ -41,7 +46,7 @@
 (***************************************************************************)
 EXTENDS IntMat, Gauss, FiniteSets, Json
 
-CONSTANTS Grp,        \* "sl2z", "gl2z", "gl3z", "sl2zi", "m2z", "m3z"
+CONSTANTS Grp,        \* "sl2z", "gl2z", "gl3z", "sl2zi", "m2z", "m3z", "m2zi"
           MaxLen,     \* length of the walks
           MaxIrrep,   \* irreducible representations of dimension 2..MaxIrrep
           MaxDet      \* determinants of the irreducible images up to this dimension
@@ -52,8 +57,9 @@ Neg(k) == 0 - k
 M2(a, b, c, d) == <<<<a, b>>, <<c, d>>>>
 Dim == IF Grp \in {"gl3z", "m3z"} THEN 3 ELSE 2
 Rational == Grp \in {"m2z", "m3z"}
+NonUni == Rational \/ Grp = "m2zi"
 Id == CId(Dim)
-IsReal == Grp # "sl2zi"
+IsReal == Grp \notin {"sl2zi", "m2zi"}
 
 E3(i, j, s) == LET e(r, c) == IF r = c THEN 1 ELSE IF r = i /\ c = j THEN s ELSE 0 IN Mk(3, 3, e)
 Gens ==
@@ -72,6 +78,9 @@ Gens ==
     [] Grp = "m3z" -> [A |-> CReal(<<<<2, 3, 1>>, <<1, 2, 1>>, <<1, 1, 2>>>>), B |-> CReal(<<<<1, 0, 0>>, <<0, 3, 1>>, <<0, 1, 1>>>>),
                        E |-> CReal(E3(1, 2, 1)), R |-> CReal(<<<<1, 0, 0>>, <<0, 1, 0>>, <<0, 0, Neg(1)>>>>),
                        Q |-> CReal(<<<<0, 1, 0>>, <<0, 0, 1>>, <<1, 0, 0>>>>)]
+    [] Grp = "m2zi" -> [T |-> CReal(M2(1, 1, 0, 1)), S |-> CReal(M2(0, Neg(1), 1, 0)),
+                        A |-> CM(M2(1, 1, 0, 1), M2(1, 0, 0, 0)), B |-> CM(M2(1, 0, 0, 2), M2(0, 0, 1, 0)),
+                        U |-> CM(M2(0, 0, 0, 1), M2(1, 0, 0, 0)), R |-> CReal(M2(2, 1, 0, Neg(1)))]
     [] Grp = "sl2zi" -> [T |-> CReal(M2(1, 1, 0, 1)), S |-> CReal(M2(0, Neg(1), 1, 0)),
                          J |-> CM(M2(1, 0, 0, 1), M2(0, 1, 0, 0)), Ji |-> CM(M2(1, 0, 0, 1), M2(0, Neg(1), 0, 0)),
                          L |-> CM(M2(1, 0, 0, 1), M2(0, 0, 1, 0)),
@@ -190,7 +199,8 @@ MapNames ==
     [] Grp = "gl2z" -> Irreps \cup {"so21", "adgl", "adsl", "blk4"}
     [] Grp = "gl3z" -> {"adgl", "adsl", "real", "blk5"}
     [] Grp = "sl2zi" -> Irreps \cup {"real", "herm", "so31", "blk3"}
-    [] Grp = "m2z" -> Irreps \cup {"adgl", "adsl", "real", "blk4"}
+    [] Grp = "m2z" -> Irreps \cup {"so21", "adgl", "adsl", "real", "herm", "so31", "blk4"}
+    [] Grp = "m2zi" -> Irreps \cup {"real", "herm", "so31", "blk3"}
     [] Grp = "m3z" -> {"adgl", "adsl", "real", "blk5"}
 Scale(nm) == IF nm \in {"so21", "so31"} THEN 2 ELSE 1
 Phi(nm, a) ==
@@ -225,13 +235,14 @@ HomLaw == LET I == Img IN
             Mul(I[nm], GenImg[nm][s]) = Times(Scale(nm), Phi(nm, Mul(g, Gens[s])))
 \* (32-bit integers: evaluated where the entries of both factors are below 10^4, so that no sum of products overflows)
 CSmall(X) == MaxAbs(X.re) <= 10000 /\ MaxAbs(X.im) <= 10000
-InverseLaw == ~Rational => \A nm \in MapNames :
+InverseLaw == ~NonUni => \A nm \in MapNames :
                 LET X == Phi(nm, g)
                     Y == Phi(nm, Inv(g))
                 IN (CSmall(X) /\ CSmall(Y)) => Mul(X, Y) = Times(Scale(nm), Phi(nm, Id))
 GroupElement == /\ Rational => DetOf(g)[1] # 0 /\ DetOf(g)[2] = 0 /\ MMul(g.re, Adj(g.re)) = MScale(DetOf(g)[1], IdM(Dim))
-                /\ ~Rational => DetOf(g) \in (IF Grp \in {"sl2z", "sl2zi"} THEN {<<1, 0>>} ELSE {<<1, 0>>, <<Neg(1), 0>>})
-                /\ ~Rational => Mul(g, Inv(g)) = Id
+                /\ Grp = "m2zi" => DetOf(g) # <<0, 0>>
+                /\ ~NonUni => DetOf(g) \in (IF Grp \in {"sl2z", "sl2zi"} THEN {<<1, 0>>} ELSE {<<1, 0>>, <<Neg(1), 0>>})
+                /\ ~NonUni => Mul(g, Inv(g)) = Id
                 /\ IsReal => g.im = ZeroM(Dim, Dim)
 RECURSIVE IPow(_, _)
 IPow(b, e) == IF e = 0 THEN 1 ELSE b * IPow(b, e - 1)
@@ -246,15 +257,18 @@ IrrepDet == IsReal => \A nm \in Irreps \cap MapNames : AllMaps[nm][2] <= MaxDet 
 So21Laws == "so21" \in MapNames =>
               LET X == So21x2(g)
                   S3 == Sym(g, 3).re
-              IN /\ MMul(Tr(X), MMul(J3, X)) = MScale(4, J3)
-                 /\ Det(X) = 8 * DetOf(g)[1]
-                 /\ \A q \in TestForms : Disc(MatVec(S3, q)) = Disc(q)
+                  d == DetOf(g)[1]          \* the discriminant is scaled by det^2 (preserved in GL(2,Z))
+              IN /\ MMul(Tr(X), MMul(J3, X)) = MScale(4 * d * d, J3)
+                 /\ MaxAbs(X) <= DetBound(3) => Det(X) = 8 * d * d * d      \* (guard: 32-bit cofactor expansion)
+                 /\ \A q \in TestForms : Disc(MatVec(S3, q)) = d * d * Disc(q)
 So31Laws == "so31" \in MapNames =>
-              LET X == So31x2(g) IN
-              /\ MMul(Tr(X), MMul(J4, X)) = MScale(4, J4)
-              /\ Det(X) = 16
+              LET X == So31x2(g)
+                  n2 == GNorm(DetOf(g))     \* -det of a Hermitian matrix is scaled by |det g|^2 (preserved in SL(2,C))
+              IN
+              /\ MMul(Tr(X), MMul(J4, X)) = MScale(4 * n2, J4)
+              /\ MaxAbs(X) <= DetBound(4) => Det(X) = 16 * n2 * n2
               /\ \A k \in 1..4 : IsHerm(HermAct(g, Pauli[k])) /\ IsHerm(HermAct(g, HermBasis[k]))
-              /\ \A k \in 1..4 : HermDet(HermAct(g, Pauli[k])) = HermDet(Pauli[k])
+              /\ \A k \in 1..4 : HermDet(HermAct(g, Pauli[k])) = n2 * HermDet(Pauli[k])
               /\ MMul(PauliInHerm, X) = MScale(2, MMul(HermM(g), PauliInHerm))
 AdjointLaws == "adgl" \in MapNames =>
                  LET n == Dim
